@@ -166,6 +166,37 @@ theorem makeSpanRow_get_out {n : Int} {row : Row} (hwf : RowWF n row) (col cols 
     · simp only [hE, and_self, if_true, true_and]
     · simp only [hE, if_false, false_and]
 
+/-- On a well-formed line `make_span` does not reach `abort()`. -/
+theorem makeSpanAborts_false {n : Int} {row : Row} (hwf : RowWF n row) (col cols : Int)
+    (hc0 : 0 ≤ col) (hc1 : 1 ≤ cols) (hcn : col + cols ≤ n) : makeSpanAborts n row col cols = false := by
+  have hcol_lt : col < n := by omega
+  have hrow1 : ∀ j, j < col + cols → (splitAfter n row (col + cols)).get j = row.get j := by
+    intro j hj
+    rw [splitAfter_get]
+    by_cases hE : col + cols < n ∧ (row.get (col + cols)).state = .cont
+    · simp only [hE, and_self, if_true]
+      have : ¬ j = col + cols := by omega
+      have : ¬ (col + cols + 1 ≤ j ∧ j < (row.get (col + cols)).cols + (row.get (row.get (col + cols)).cols).cols) := by omega
+      simp only [*, if_false]
+    · simp only [hE, if_false]
+  unfold makeSpanAborts
+  have h1 : splitAfterAborts n row (col + cols) = false := by
+    unfold splitAfterAborts
+    by_cases hE : col + cols < n ∧ (row.get (col + cols)).state = .cont
+    · rw [if_pos hE]
+      rcases hwf.head_kind (by omega) hE.1 hE.2 with h | h | h <;> rw [h]
+    · rw [if_neg hE]
+  have h2 : shortenBeforeAborts (splitAfter n row (col + cols)) col = false := by
+    unfold shortenBeforeAborts
+    rw [hrow1 col (by omega)]
+    by_cases hB : (row.get col).state = .cont
+    · rw [if_pos hB]
+      have hlt := (hwf.cont col hc0 hcol_lt hB).2.1
+      rw [hrow1 _ (by omega)]
+      rcases hwf.head_kind hc0 hcol_lt hB with h | h | h <;> rw [h]
+    · rw [if_neg hB]
+  rw [h1, h2]; rfl
+
 /-! ### The new start cell of the split-off tail -/
 
 theorem splitCell_facts {n : Int} {row : Row} (hwf : RowWF n row) {e : Int} (he0 : 0 ≤ e) (hen : e < n)
